@@ -670,10 +670,10 @@ def run(ctx):
     ts_lab = with_near_misses(rng, 'timestamp', [gen_int_lex(rng) for _ in range(ctx.n(600, 8000))] + ['1' + '0' * 40, '9' * 300, '0' * 50 + '7'],
                               ts_core, k, wrap_ws=True)
     ts_lex = [s for _, s in ts_lab]
-    dec_vals = [gen_dec_val(rng) for _ in range(ctx.n(3000, 36000))]
+    dec_vals = [gen_dec_val(rng) for _ in range(ctx.n(2600, 36000))]
     dec_vals += [[False, '1', -7], [False, '1', -18], [False, '123456789012345678', -18], [False, '123456789012345678', 3],
                  [True, '0', -1], [False, '0', -15], [False, '123', -3], [False, '0', 3], [True, '1', -7], [False, '1', 18]]
-    dec_plain = [gen_dec_lex(rng) for _ in range(ctx.n(2200, 24000))] + [gen_dec_padded(rng) for _ in range(ctx.n(1200, 12000))] + [
+    dec_plain = [gen_dec_lex(rng) for _ in range(ctx.n(1800, 24000))] + [gen_dec_padded(rng) for _ in range(ctx.n(1000, 12000))] + [
         '987654321012345670.0', '100000000000000000.000', '-120000000000000000.0', '0010.0', '10.', '1230.00', '0.000000000000000001000',
         '0.' + '0' * 100 + '1', '1' * 100 + '.' + '2' * 100, '-.' + '9' * 400] + [
         'NaN', 'Infinity', '-Infinity', 'sNaN', '1E5', '1e-3', '1_0', '٣', '.', '', '5.', '.5', '-0', '+.0', '1.5e-3', '2_0.5', '1٥.5', '0E-15']
@@ -689,14 +689,14 @@ def run(ctx):
                 '0.0', '1e0', '1_', '١', '１', '０', 'truex', 'xtrue', 'true1', '1true', 'true true', 'true,false', 'None', 'null',
                 'TrUe', 'tRUE', '10', '11', '-0', '0x1', '\x001', 'true\x00']
     bool_lex += [mutate(rng, rng.choice(['true', 'false', '1', '0'])) for _ in range(ctx.n(150, 1500))]
-    dur_vals = [gen_dur_val(rng) for _ in range(ctx.n(2500, 24000))]
+    dur_vals = [gen_dur_val(rng) for _ in range(ctx.n(2100, 24000))]
     dur_plain = [gen_dur_lex(rng) for _ in range(ctx.n(2300, 24000))] + [
         'PT١S', 'PT1S\n', 'PT', 'PT0.0000005S', 'PT0.0000015S', 'PT1.0000005S', 'PT0.0100000S', 'PT1.1234567S', 'PT0.50000000S',
         'PT0.0000004S', 'PT0.0000001S', 'PT0.' + '0' * 400 + '1S', 'PT0.' + '9' * 400 + 'S', 'PT1.' + '5' * 100 + 'S', 'PT' + '9' * 400 + '.5S',
         'PT2147483648S', 'PT2147483647.9999999S', 'PT596523H14M7.9999996S']
     dur_lab = with_near_misses(rng, 'duration', dur_plain, gen_dur_core, k)
     dur_lex = [s for _, s in dur_lab]
-    dt_vals = [gen_dt_val(rng) for _ in range(ctx.n(1500, 15000))]
+    dt_vals = [gen_dt_val(rng) for _ in range(ctx.n(1300, 15000))]
     dt_plain = [gen_dt_lex(rng) for _ in range(ctx.n(2300, 24000))] + [
         '２０２０', '2020-02-31', '2021-02-29', '2020-05:00', '0000', '-0000', '2020-05-06T24:00:00.000Z', '2020-05-06T10:11:12.0100000',
         '2020-05-06T10:11:12.1234567', '2020-05-06T10:11:59.9999999', '2020-05-06T10:11:59.' + '9' * 400, '2020-05-06T10:11:00.' + '0' * 300 + '1Z', '2020-05-06T10:11:59.999999999999999', '2020-05-06T23:59:59.99999999999999999Z',
@@ -913,7 +913,7 @@ def run(ctx):
         if want is not None:
             dl.append(bin_len(len(s.strip(XML_WS).lstrip('+-'))))
         if v != 'skip':
-            cases.append((slit(s), fr_lit(r) if is_me(r) else 'None', {'xml': s, 'impl': r}))
+            cases.append((slit(s), fr_lit(r) if is_me(r) else '(@None (Z * Z))', {'xml': s, 'impl': r}))
     corr('ts-lex', 'option_eqb fr_eqb', 'ts_to_py_str', [c[:2] for c in cases], lambda i, cs=cases: cs[i][2])
     lex_counts('ts-lex', ts_lab, impl['ts_lex'], dl)
 
@@ -931,7 +931,7 @@ def run(ctx):
             dl.append(bin_len(len(s.strip(XML_WS).lstrip('+-'))))
         if v != 'skip':
             okr = isinstance(r, str) and re.fullmatch(r'-?[0-9]+', r)
-            cases.append((slit(s), f'(Some {coqlit(int(r))})' if okr else 'None', {'xml': s, 'impl': r}))
+            cases.append((slit(s), f'(Some {coqlit(int(r))})' if okr else '(@None Z)', {'xml': s, 'impl': r}))
     corr('int-lex', 'option_eqb Z.eqb', 'int_to_py', [c[:2] for c in cases], lambda i, cs=cases: cs[i][2])
     lex_counts('int-lex', int_lab, impl['int_lex'], dl)
     if 'int_lex' in impl and not impl.get('int_shared_to_py') and not any(is_skip(r) for r in impl['int_lex']):
@@ -1023,7 +1023,7 @@ def run(ctx):
                     ctx.fail(f'canonical decimal {core!r} is written back as {back!r}', {'stream': 'decimal', 'clause': 'xml_py_xml'},
                              {'stream': 'dec-lex', 'case': {'xml': s}, 'impl_trace': [r, back]})
         okr = isinstance(r, list) and len(r) == 3
-        cases.append((slit(s), f'(Some {coqlit((r[0], r[1], r[2]))})' if okr else 'None', {'xml': s, 'impl': [r, back]}))
+        cases.append((slit(s), f'(Some {coqlit((r[0], r[1], r[2]))})' if okr else '(@None (bool * string * Z))', {'xml': s, 'impl': [r, back]}))
     corr('dec-lex', 'option_eqb dec_out_eqb', 'fun s => option_map dec_out (dec_to_py s)', [c[:2] for c in cases],
          lambda i, cs=cases: cs[i][2])
     st = lexstat.get('dec-lex', {})
@@ -1072,11 +1072,11 @@ def run(ctx):
             if acc != (s in lits) or (acc and (r != s or val != s)):
                 ctx.fail(f'enum {k["class"]}: literal {s!r} -> {r!r}', {'stream': 'lexical', 'type': 'enum'},
                          {'stream': 'enum', 'case': {'class': k['class'], 'xml': s}, 'impl_trace': [r, val]})
-            cases.append((f'([{"; ".join(slit(x) for x in lits)}], {slit(s)})', f'(Some {slit(r)})' if acc else 'None'))
+            cases.append((f'([{"; ".join(slit(x) for x in lits)}], {slit(s)})', f'(Some {slit(r)})' if acc else '(@None string)'))
             keys.append((k['class'], s))
             desc.append({'class': k['class'], 'xml': s, 'impl': r})
     corr('enum', 'option_eqb String.eqb', 'fun c => enum_to_py (fst c) (snd c)', cases, lambda i, d=desc: d[i])
-    ctx.count('enum', len(cases), keys, classes=len(impl['enum']), rejected=sum(1 for c in cases if c[1] == 'None'))
+    ctx.count('enum', len(cases), keys, classes=len(impl['enum']), rejected=sum(1 for c in cases if c[1] == '(@None string)'))
 
     # ------------------------------------------------------------------ durations
     cases, nneg, nover = [], 0, 0
@@ -1216,7 +1216,7 @@ def run(ctx):
             if not abs(fr_of(t[4]) - wt[2]) < US:
                 return f'second = {float(fr_of(t[4]))!r} instead of {float(wt[2])!r}: off by {float(abs(fr_of(t[4]) - wt[2]) / US):.6g} us'
 
-    cases, sec_cases, ndom, fl, yl, shapes = [], [], 0, [], [], []
+    cases, nsec, nlong, ndom, fl, yl, shapes = [], 0, 0, 0, [], [], []
     for (label, s), (r, back) in zip(dt_lab, impl['dt_lex']):
         want = ref_dt(s)
         v = judge('datetime', 'dt-lex', label, s, r, want, lambda r, want=want: dt_fields_wrong(r, want))
@@ -1248,21 +1248,19 @@ def run(ctx):
                     ndom += 1     # e.g. 2020-02-31: accepted, kept as it is and written back unchanged (no coercion): recorded only
         okr = isinstance(r, list) and len(r) == 6
         t = r[3] if okr else None
-        sec_cases.append((slit(s), fr_lit(t[4]) if t is not None and is_me(t[4]) else 'None', {'xml': s, 'impl': r}))
-        if not okr:
-            exp = 'DtReject'
-        else:
-            if t is not None and not t[3]:
-                continue     # more than 6 fraction digits: outside the microsecond model of parse_dt (the float is compared in dt-sec)
-            exp = f'(DtOk {dtlit([r[0], r[1], r[2], t and t[:3], r[4], r[5]])})'
-        cases.append((slit(s), exp, {'xml': s, 'impl': r}))
-    corr('dt-lex', 'dtres_eqb', 'dt_to_py', [c[:2] for c in cases], lambda i, cs=cases: cs[i][2])
-    # the second field as a binary64, for a fraction of any length
-    corr('dt-sec', 'option_eqb fr_eqb', 'dt_second_float', [c[:2] for c in sec_cases], lambda i, cs=sec_cases: cs[i][2])
+        sec = fr_lit(t[4]) if t is not None and is_me(t[4]) else '(@None (Z * Z))'
+        # parse_dt answers DtUnmodelled for more than 6 fraction digits (dtres_eqb then compares nothing); the binary64 of the
+        # second field is compared for every fraction length
+        exp = f'(DtOk {dtlit([r[0], r[1], r[2], t and t[:3], r[4], r[5]])})' if okr else 'DtReject'
+        cases.append((slit(s), f'({exp}, {sec})', {'xml': s, 'impl': r}))
+        nsec += sec.startswith('(Some')
+        nlong += bool(t is not None and not t[3])
+    corr('dt-lex', 'fun a b => dtres_eqb (fst a) (fst b) && option_eqb fr_eqb (snd a) (snd b)', 'fun s => (dt_to_py s, dt_second_float s)',
+         [c[:2] for c in cases], lambda i, cs=cases: cs[i][2])
     st = lexstat.get('dt-lex', {})
     ctx.count('dt-lex', len(dt_lex), dt_lex, rejected=sum(1 for r, _ in impl['dt_lex'] if is_err(r)), nonexistent_day_accepted=ndom, **st,
-              valid_fraction_digits_histogram=hist(fl), valid_year_digits_histogram=hist(yl), valid_shapes=hist(shapes))
-    ctx.count('dt-sec', len(sec_cases), [c[0] for c in sec_cases], with_time_of_day=sum(1 for c in sec_cases if c[1] != 'None'))
+              valid_fraction_digits_histogram=hist(fl), valid_year_digits_histogram=hist(yl), valid_shapes=hist(shapes),
+              second_field_compared_as_binary64=nsec, more_than_6_fraction_digits_accepted=nlong)
 
     # ------------------------------------------------------------------ the property classes use these converters
     want = {'TimestampAttributeProperty': 'TimestampConverter', 'CurrentTimestampAttributeProperty': 'TimestampConverter',
@@ -1302,7 +1300,7 @@ def run(ctx):
                      'durations XML -> Python: |parsed - exact| < 1 us is claimed and proved for lexical forms of any fraction length with a '
                      'value up to 2^31 s (binary64 cannot hold microseconds far beyond that); values below 2^-1022 (subnormal) are outside rnd53',
                      'date/time: parse_dt models the second field at microsecond resolution (more than 6 fraction digits: only the binary64 '
-                     'of the second field is modelled, stream dt-sec)'],
+                     'of the second field is modelled)'],
         trusted_base=['extraction: ExtrOcamlBasic only; ocaml/driver_c18.ml + zutil.inc (timestamp streams)',
                       'correspondence harness harness/impl/c18_impl.py and the reference semantics / regular expressions of harness/props/c18.py',
                       'the proposed repairs fixes/C18_*.diff are part of the checked tree (the model is the repaired code)'],
